@@ -23,19 +23,32 @@ Every run:
   revision properties, revision id, added/removed entry ...) must change the
   testament of every class.
 
-Findings (see RULE / `_classify`): collisions that the frozen text format has
-by construction are reported with a family slug computed from the concrete
-pair of records; any other collision has family None.
+Findings (see `_classify`): collisions that the frozen text format has by
+construction are reported with a family slug computed from the concrete pair of
+records (message-line-boundaries, revprop-line-boundaries, path-backslash,
+symlink-target-backslash, timestamp-subsecond, parents-order,
+v1-exec-bit-not-attested); any other collision has family None and is shrunk.
+Each family has a universally quantified `_witness` / `_collision` theorem.
 
-Mutants this was built against (all caught; see the final report):
-  M1 `sorted(self.parent_ids)` -> `self.parent_ids` .......... T2 text differs
-  M2 `_escape_path`: drop `.replace(" ", "\\ ")` ............. oracle: path collision
-  M3 StrictTestament: `" yes\n"`/`" no\n"` swapped ........... T2
-  M4 `_revprops_to_lines`: `value.splitlines()` joined by " ". oracle: revprop collision
-  M5 `as_text_lines`: skip symlink content (kind == "symlink" branch dropped) oracle
-  M6 `timestamp: %d` -> timestamp of day (ts % 86400) ......... oracle: timestamp collision
-  M7 StrictTestament3 `_escape_path`: `path == ""` -> "." dropped  T2
-  harmless: `a = r.append` loop rewritten as list comprehension / join -> clean
+Besides single-field perturbations two *aimed* multi-field perturbations move
+field boundaries (`resplit`: `symlink <p> <fid> <x y>` -> `symlink <p fid> <x> <y>`;
+`resplit_prop`: a value line `<n>0:` becomes a property of its own): the pairs
+are told apart only by the escaping of spaces / the 4-space indent, which is
+exactly what the injectivity proof relies on.
+
+Mutants this was built against (scratch worktree, breezy/bzr/testament.py):
+  M1  `sorted(self.parent_ids)` -> `self.parent_ids` ............ T2 (text differs)
+  M2  `_escape_path`: `.replace(" ", "\\ ")` dropped ............. oracle: resplit collision
+        symlink p (id f) -> "x y"  ==  symlink "p f" (id x) -> "y"   (shrunk to one entry)
+  M3  StrictTestament `" yes\n"` / `" no\n"` swapped ............. T2
+  M4  revprop value indent 4 -> 2 spaces ........................ oracle: resplit_prop collision
+  M5  `elif ie.kind == "symlink"` never taken (target dropped) .. oracle: target perturbation
+  M6  `"timestamp: %d" % (self.timestamp % 86400)` .............. oracle: ts + 1 day collision
+  M7  StrictTestament3 `path == ""` -> "." dropped .............. T2
+  M8  `message.splitlines()` -> `message.split("\n")` ........... T2
+  M9  `contains_whitespace(ie.file_id)` check dropped ........... T2 (malformed stream)
+  M10 the two `.replace` calls of `_escape_path` swapped ........ T2
+  harmless: message loop as list comprehension; `sorted(set(parent_ids))` -> clean
 """
 import hashlib
 
@@ -153,7 +166,7 @@ def gen_record(rng, wild=False):
             e["content"] = _word(rng, ["a", "b", "\n"], 0, 4)
             e["exec"] = rng.random() < 0.3
         elif k == "l":
-            e["target"] = _word(rng, NAME_ALPH + ["/", "/"], 1, 5)
+            e["target"] = _word(rng, NAME_ALPH + ["/", "/", " "], 1, 5)
         else:
             dirs.append(path)
         entries.append(e)
@@ -163,6 +176,9 @@ def gen_record(rng, wild=False):
         if n in [p[0] for p in props]:
             continue
         val = _text(rng, wild, 3)
+        if n and rng.random() < 0.3:
+            # last line "<name>0:" looks like the header line of a following property
+            val = (val if (not val or val.endswith("\n")) else val + "\n") + n + "0:"
         if not wild and val and not val.strip():
             val += "x"      # pack-0.92 (XML) does not store whitespace-only values faithfully
         props.append([n, val])
@@ -490,8 +506,42 @@ def perturb(rng, rec):
              "prop", "prop", "root_id", "add_entry"]
     if rec["entries"]:
         kinds += ["path", "path", "content", "exec", "target", "fid", "entry_rev", "remove_entry", "kind"] * 2
+    resplit = [e for e in rec["entries"] if e["kind"] == "l" and " " in e["target"].strip(" ")
+               and not any(o["path"].startswith(e["path"] + "/") for o in rec["entries"])]
+    if resplit:
+        kinds += ["resplit"] * 6
+    names = [p[0] for p in rec["props"]]
+    resplit_p = [p for p in rec["props"] if p[1].splitlines() and p[1].splitlines()[-1] == p[0] + "0:"
+                 and p[0] + "0" not in names
+                 and not any(p[0] < o < p[0] + "0" for o in names)]
+    if resplit_p:
+        kinds += ["resplit_prop"] * 6
     k = rng.choice(kinds)
     cls = ALL
+    if k == "resplit_prop":
+        # NOT a single-field change: the last value line "<n>0:" becomes a property of its own
+        #   {n: "...\n<n>0:"}  ->  {n: "...", n0: ""}   (told apart only by the 4-space indent)
+        pick = rng.choice(resplit_p)[0]
+        pr = next(q for q in r["props"] if q[0] == pick)
+        lines = pr[1].splitlines()
+        pr[1] = "".join(l + "\n" for l in lines[:-1])
+        r["props"].append([pick + "0", ""])
+        return k, cls, r
+    if k == "resplit":
+        # NOT a single-field change: move the field boundaries of a symlink line
+        #   symlink <path> <fid> <x y>   ->   symlink <path fid> <x> <y>
+        # the two records are told apart only by the escaping of spaces
+        pick = rng.choice(resplit)["path"]
+        e = next(o for o in r["entries"] if o["path"] == pick)
+        head, _, tail = e["target"].strip(" ").partition(" ")
+        tail = tail.strip(" ")
+        newpath = e["path"] + " " + e["fid"]
+        if not head or not tail or newpath in [o["path"] for o in r["entries"]] or \
+                head in [o["fid"] for o in r["entries"]] + [r["root_id"]] or "/" in head or "\\" in head \
+                or "/" in e["fid"]:
+            return None
+        e.update(path=newpath, fid=head, target=tail)
+        return (k, cls, r) if _storable(r) else None
     if k == "rid":
         old = r["rid"]
         r["rid"] = _edit(rng, r["rid"], ID_ALPH)
@@ -843,6 +893,47 @@ def one_pair(ctx, batch, rng, rec, ref):
     check_pair(ctx, field, classes, rec, rec2, ref, res, mode)
 
 
+def _collide(a, b, v):
+    """do records a != b give the same class-v testament (in memory)?"""
+    if a == b:
+        return False
+    try:
+        ta = render(make_testaments(a, "mem")[0][v])
+        tb = render(make_testaments(b, "mem")[0][v])
+    except Exception:
+        return False
+    return isinstance(ta[0], bytes) and ta == tb
+
+
+def _shrink_pair(a, b, v):
+    """greedy: drop the parts both records share while they still collide"""
+    import copy
+    a, b = copy.deepcopy(a), copy.deepcopy(b)
+    changed = True
+    while changed:
+        changed = False
+        for key in ("entries", "props", "parents"):
+            for item in list(a[key]):
+                if item not in b[key]:
+                    continue
+                if key == "entries" and any(o["path"].startswith(item["path"] + "/") for o in a["entries"] + b["entries"]):
+                    continue
+                a2, b2 = copy.deepcopy(a), copy.deepcopy(b)
+                a2[key].remove(item)
+                b2[key].remove(item)
+                if _collide(a2, b2, v):
+                    a, b, changed = a2, b2, True
+        for key, val in (("message", ""), ("committer", ""), ("ts_ms", 0), ("tz", 0)):
+            if a[key] == b[key] and a[key] != val:
+                a2, b2 = dict(a, **{key: val}), dict(b, **{key: val})
+                if _collide(a2, b2, v):
+                    a, b, changed = a2, b2, True
+    return a, b
+
+
+_shrunk = [0]
+
+
 def check_pair(ctx, field, classes, rec, rec2, ref, res, mode):
     for v in classes:
         a, b = ref[v], res[v]
@@ -851,6 +942,10 @@ def check_pair(ctx, field, classes, rec, rec2, ref, res, mode):
         if a[0] == b[0] or a[1] == b[1]:
             fam = _classify(field, rec, rec2, v)
             ctx.count("collision:" + str(fam))
+            if fam is None and _shrunk[0] < 3 and _collide(rec, rec2, v):
+                _shrunk[0] += 1
+                rec, rec2 = _shrink_pair(rec, rec2, v)
+                mode = "mem"
             ctx.violation(dict(kind="pair", field=field, variant=v, mode=mode, base=rec, pert=rec2),
                           "attested field %r changed but the class-%s testament did not (%s)" % (
                               field, v, fam or "unclassified"),
@@ -893,7 +988,7 @@ def pure_streams(ctx, rng, n):
 def run(ctx):
     rng = ctx.rng
     batch = _Batch(ctx)
-    n_base = ctx.pick(200, 2500)
+    n_base = ctx.pick(160, 2000)
     n_pert = ctx.pick(7, 10)
     pure_streams(ctx, rng, ctx.pick(400, 4000))
     for i in range(n_base):
